@@ -16,6 +16,7 @@ PROPS = {
             {"pkg": "ord", "name": "VH_C20_BidAccept2D", "quick": {"params": {"U2": 3, "FQ": 0}}, "thorough": {"params": {"U2": 3, "FQ": 1}}},
             {"pkg": "ord", "name": "VH_C20_InscribeTwice"},
             {"pkg": "ord", "name": "VH_C20_BidSurplus", "quick": {"params": {"N": 4}}, "thorough": {"params": {"N": 4}}},
+            {"pkg": "ord", "name": "VH_C20_BidSurplus", "quick": {"params": {"N": 4, "RS": 1}}, "thorough": {"params": {"N": 4, "RS": 1}}},
             {"pkg": "ord", "name": "VH_C20_Inscribe", "quick": {"params": {"BIG": 2}}, "thorough": {"params": {"BIG": 2}}},
         ],
         "assumptions": [],
@@ -34,7 +35,7 @@ PROPS = {
         "harnesses": [
             {"pkg": "interpreter", "name": "VH_C04_Accept", "quick": {"params": {"IN": 2, "OUT": 2}}, "thorough": {"params": {"IN": 3, "OUT": 3}}},
             {"pkg": "interpreter", "name": "VH_C04_Accept", "quick": {"params": {"IN": 1, "OUT": 1, "INSC": 1}}, "thorough": {"params": {"IN": 2, "OUT": 2, "INSC": 1}}},
-            {"pkg": "interpreter", "name": "VH_C04_AcceptAll", "quick": {"params": {"IN": 2, "OUT": 2}}, "thorough": {"params": {"IN": 3, "OUT": 2}}},
+            {"pkg": "interpreter", "name": "VH_C04_AcceptAll", "quick": {"params": {"IN": 2, "OUT": 2}}, "thorough": {"params": {"IN": 2, "OUT": 3}}},
             {"pkg": "interpreter", "name": "VH_C04_Commit", "quick": {"params": {"IN": 2, "OUT": 2}}, "thorough": {"params": {"IN": 2, "OUT": 3}}},
         ],
         "assumptions": [],
